@@ -913,6 +913,44 @@ func checkNoPageRetained(c *Ctx, rule string) {
 		}
 	})
 	c.check(len(tabled) >= 2, rule, "requests entered into the handle table", p.Pos(worker.Pos()), fmt.Sprintf("%d packet types", len(tabled)), fmt.Sprintf("only %d packet types found whose Request is entered into the handle table (OPEN and OPENDIR expected)", len(tabled)))
+	var names []string
+	for t := range tabled {
+		names = append(names, t)
+	}
+	sort.Strings(names)
+	// by running requestFromPacket on a packet of each such type (fields as tokens): a byte slice field of the Request
+	// that holds a packet field's token itself, not a copy of it, is the decoder's sub-slice
+	{
+		evaluated := len(names) > 0
+		res := map[string]map[string]string{}
+		for _, tn := range names {
+			f, ok := p.requestFieldsOf(tn)
+			if !ok {
+				evaluated = false
+				break
+			}
+			res[tn] = f
+		}
+		if evaluated {
+			req := p.NamedType(p.Sftp, "Request")
+			for _, tn := range names {
+				kept := ""
+				if st, ok := req.Underlying().(*types.Struct); ok {
+					for i := 0; i < st.NumFields(); i++ {
+						f := st.Field(i)
+						if sl, ok := f.Type().Underlying().(*types.Slice); ok && isByteType(sl.Elem()) {
+							if l := res[tn][f.Name()]; l != "" && !strings.HasPrefix(l, "copy:") {
+								kept = f.Name()
+							}
+						}
+					}
+				}
+				c.check(kept == "", rule, tn+": no byte slice kept", p.Pos(rfp.Pos()), "byte slices stored in the long-lived Request are copies",
+					"Request."+kept+" of a request that stays in the handle table is the decoder's sub-slice of the receive buffer: with the allocator that page is recycled once the response has been sent, and a later packet overwrites what the open file's Request still points at")
+			}
+			return
+		}
+	}
 	var sw ssa.Value
 	eachInstr(rfp, func(in ssa.Instruction) {
 		if ta, ok := in.(*ssa.TypeAssert); ok && ta.CommaOk && sw == nil {
@@ -924,11 +962,6 @@ func checkNoPageRetained(c *Ctx, rule string) {
 		return
 	}
 	head := switchHead(rfp, sw)
-	var names []string
-	for t := range tabled {
-		names = append(names, t)
-	}
-	sort.Strings(names)
 	for _, tn := range names {
 		nt := p.NamedType(p.Sftp, tn)
 		if nt == nil {
